@@ -36,10 +36,20 @@ def h(x):
 class Acc:
     """Per-shard accumulator; merged by the parent in shard order."""
 
-    def __init__(self, seed=0):
+    def __init__(self, seed=0, lean=False):
         self.seed = seed
+        # lean: the check enumerates cases that are distinct by construction (token sequences, product elements;
+        # shards partition the space), so nodes and edges are counted instead of remembered by 64-bit key.
+        self.lean = lean
         self.evaluations = 0
         self.traces = 0
+        # Counters for cases that are distinct by construction (an enumerated token sequence / product element is
+        # never produced twice and shards partition the space): counted without keeping 64-bit keys, so that runs
+        # of 10^7..10^8 executions stay within memory.  A node of the state graph is then (enumerated case, canonical
+        # form reached), i.e. two different inputs reaching an equal library are two nodes.
+        self.n_states = 0
+        self.n_transitions = 0
+        self.n_nontrivial = 0
         self.nontrivial = set()
         self.states = set()
         self.transitions = set()
@@ -62,22 +72,36 @@ class Acc:
         if sample is not None and len(self.samples) < 4:
             if (self.evaluations * 7 + self.seed) % SAMPLE_STRIDE == 5:
                 self.samples.append(sample() if callable(sample) else sample)
-        if nontrivial_key is not None:
+        if self.lean:
+            self.n_states += 1  # the enumerated case itself is a node
+            if nontrivial_key is not None:
+                self.n_nontrivial += 1
+        elif nontrivial_key is not None:
             self.nontrivial.add(h(nontrivial_key))
 
     def trace(self, n=1):
         self.traces += n
 
     def state(self, key):
+        if self.lean:
+            self.n_states += 1
+            return 0
         k = h(key)
         self.states.add(k)
         return k
 
     def transition(self, s, action, t):
+        if self.lean:
+            self.n_transitions += 1
+            return
         self.transitions.add(h((s, action, t)))
 
     def step(self, skey, action, tkey):
-        """Record s --action--> t by canonical keys."""
+        """Record s --action--> t by canonical keys (lean: the source is the current case, already counted)."""
+        if self.lean:
+            self.n_states += 1
+            self.n_transitions += 1
+            return 0
         s = self.state(skey)
         t = self.state(tkey)
         self.transitions.add(h((s, action, t)))
@@ -121,6 +145,9 @@ class Acc:
     def merge(self, o):
         self.evaluations += o.evaluations
         self.traces += o.traces
+        self.n_states += o.n_states
+        self.n_transitions += o.n_transitions
+        self.n_nontrivial += o.n_nontrivial
         self.nontrivial |= o.nontrivial
         self.states |= o.states
         self.transitions |= o.transitions
@@ -187,7 +214,7 @@ def chunks(seq, n):
 def _worker(args):
     modname, idx, shard, tier, seed = args
     mod = importlib.import_module(modname)
-    acc = Acc(seed)
+    acc = Acc(seed, lean=getattr(mod, "LEAN", False))
     t0 = time.time()
     try:
         mod.run_shard(shard, tier, acc)
@@ -310,13 +337,20 @@ def run_check(modname, tier, seed, procs=None):
     if not samples:
         samples = list(getattr(mod, "STATIC_SAMPLES", []))[:3]
     coverage = {
-        "states": len(acc.states),
-        "transitions": len(acc.transitions),
+        "states": len(acc.states) + acc.n_states,
+        "transitions": len(acc.transitions) + acc.n_transitions,
         "traces_validated_against_impl": acc.traces,
         "samples": samples,
         "evaluations": acc.evaluations,
-        "distinct_nontrivial": len(acc.nontrivial),
-        "rule": mod.RULE,
+        "distinct_nontrivial": len(acc.nontrivial) + acc.n_nontrivial,
+        "state_counting": (
+            "lean: cases are distinct by construction (enumerated token sequences / product elements, shards partition the space); "
+            "states = enumerated cases + result nodes reached from them, transitions = actions executed, non-trivial = cases meeting the rule; "
+            "counted, not remembered by key"
+            if getattr(mod, "LEAN", False)
+            else "exact: distinct canonical states / (state, action, state') triples / non-trivial keys, de-duplicated globally by 64-bit key"
+        ),
+        "rule": mod.RULE + (" (Distinctness is by enumerated case: each token sequence / product element is generated exactly once.)" if getattr(mod, "LEAN", False) else ""),
         "distinct_outcomes": len(acc.outcomes),
         "exhaustive": (not acc.caps) and not harness_bad,
         "bounds": mod.bounds(tier) if hasattr(mod, "bounds") else {},
@@ -350,7 +384,7 @@ def run_check(modname, tier, seed, procs=None):
 
     print(
         f"{pid} tier={tier} seed={seed} evaluations={acc.evaluations} traces={acc.traces} "
-        f"states={len(acc.states)} transitions={len(acc.transitions)} nontrivial={len(acc.nontrivial)} "
+        f"states={len(acc.states) + acc.n_states} transitions={len(acc.transitions) + acc.n_transitions} nontrivial={len(acc.nontrivial) + acc.n_nontrivial} "
         f"outcomes={len(acc.outcomes)} caps={sorted(acc.caps)} wall={wall:.1f}s cpu={coverage['cpu_s']}s"
     )
     for k, v in sorted(acc.counters.items()):
